@@ -16,6 +16,7 @@ import Driver.Reader
 import Driver.CMSpec
 import Driver.Blocks
 import Driver.Inlines
+import Driver.AstTrace
 namespace Driver
 
 def handle (line : String) : String :=
@@ -39,6 +40,7 @@ def handle (line : String) : String :=
   | "cmspec" :: rest => handleCMSpec rest
   | "blocks" :: rest => handleBlocks rest
   | "inlines" :: rest => handleInlines rest
+  | "asttrace" :: rest => handleAstTrace rest
   | _ => bad
 
 partial def loop (hin hout : IO.FS.Stream) : IO Unit := do
